@@ -90,3 +90,50 @@ fn verif_witness_search_import_ranges() {
   }
   println!("WITNESS-SEARCH: no violating history found ({checked} import lines)");
 }
+
+// Witness search for unit `prodloc` (C14): a type parameter's range must enclose its name and its whole bound.
+#[test]
+fn verif_witness_search_type_parameter_ranges() {
+  use samlang_ast::source::Toplevel;
+  let texts = [
+    "class Sorted<K: Comparable<K>, V>(val k: K, val v: V) {}",
+    "class Main { function <A: Comparable<A>, B> pick(a: A, b: B): A = a }",
+    "interface Cmp<T: Comparable<Pair<T, T>>> {}",
+    "class Plain<A, B: Foo>(val a: A) {}",
+  ];
+  let mut checked = 0usize;
+  for text in texts {
+    let mut heap = Heap::new();
+    let mut error_set = ErrorSet::new();
+    let m = super::parse_source_module_from_text(text, ModuleReference::DUMMY, &mut heap, &mut error_set);
+    let mut lists = Vec::new();
+    for t in m.toplevels.iter() {
+      if let Some(tp) = t.type_parameters() {
+        lists.push(tp.clone());
+      }
+      if let Toplevel::Class(c) = t {
+        for member in c.members.members.iter() {
+          if let Some(tp) = member.decl.type_parameters.as_ref() {
+            lists.push(tp.clone());
+          }
+        }
+      }
+    }
+    for tps in lists {
+      for tp in tps.parameters.iter() {
+        checked += 1;
+        let inside = tp.loc.contains(&tp.name.loc) && tp.bound.as_ref().map(|b| tp.loc.contains(&b.location)).unwrap_or(true);
+        if !inside {
+          println!(
+            "WITNESS: in {text:?} the type parameter {} is reported at {} but its bound at {}: the parameter's range does not enclose its bound",
+            tp.name.name.as_str(&heap),
+            tp.loc.pretty_print_without_file(),
+            tp.bound.as_ref().map(|b| b.location.pretty_print_without_file()).unwrap_or_default()
+          );
+          return;
+        }
+      }
+    }
+  }
+  println!("WITNESS-SEARCH: no violating history found ({checked} type parameters)");
+}
